@@ -288,6 +288,10 @@ impl<'r> Gen<'r> {
         }
         self.left -= 1;
         if pos == Pos::Root {
+            if self.cfg.allow_enum && self.rng.chance(1, 25) {
+                // an externally tagged enum as the document root (a newtype variant is a one-key table)
+                return self.enum_ty(depth);
+            }
             return match self.rng.below(20) {
                 0..=12 => self.struct_ty(depth),
                 13..=16 => Ty::Map(self.key_ty(), Box::new(self.ty(depth + 1, Pos::MapVal))),
@@ -307,6 +311,16 @@ impl<'r> Gen<'r> {
         }
         let leafy = depth >= self.cfg.max_depth || self.rng.chance(if self.cfg.map_heavy { 35 } else { 50 }, 100);
         if leafy {
+            if self.rng.chance(1, 400) {
+                // a deep chain of one-element containers that have to stay inline (well below the
+                // parser's nesting limit of 80, which is C05's subject)
+                let k = *self.rng.pick(&[20usize, 39, 41, 45, 60]);
+                let mut t = self.leaf_ty();
+                for i in 0..k {
+                    t = if i % 3 == 2 { Ty::Struct("Deep".into(), vec![("d".into(), t)]) } else { Ty::Tuple(vec![t]) };
+                }
+                return Ty::Seq(Box::new(t));
+            }
             return self.leaf_ty();
         }
         let pick = if self.cfg.map_heavy { *self.rng.pick(&[0, 1, 1, 1, 2, 3, 3, 5]) } else { self.rng.below(8) };
@@ -546,8 +560,8 @@ impl<'r> Gen<'r> {
                 let mut kvs: Vec<(Val, Val)> = Vec::new();
                 for i in 0..n {
                     let k = match kt {
-                        KeyTy::Str | KeyTy::NewtypeStr(_) | KeyTy::SpannedStr if big => Val::Str(format!("k{}", (i * 7919) % 1000)),
-                        KeyTy::Str | KeyTy::NewtypeStr(_) | KeyTy::SpannedStr => {
+                        KeyTy::Str | KeyTy::NewtypeStr(_) | KeyTy::SpannedStr | KeyTy::NewtypeSpanned(_) if big => Val::Str(format!("k{}", (i * 7919) % 1000)),
+                        KeyTy::Str | KeyTy::NewtypeStr(_) | KeyTy::SpannedStr | KeyTy::NewtypeSpanned(_) => {
                             let used: Vec<String> = kvs.iter().filter_map(|(k, _)| if let Val::Str(s) = k { Some(s.clone()) } else { None }).collect();
                             Val::Str(self.name(&used))
                         }
